@@ -118,6 +118,18 @@ add("C03", "stateful property-based testing: every step of generated runs and in
     "dominated design and per-design variances with ratios up to 100 so that a discard precedes width-dependent P decisions, and through heteroscedastic real problems.",
     "As C02; a step whose discard part already disagrees is left to C02.", "DESIGN.md section 2 and section 3 C03")
 
+add("C01", "stateful property-based testing of whole runs under an adversarial stub posterior (truth kept inside every displayed region) and real models; independent oracles on the true means",
+    "Runs of PaVeBa, PaVeBaGP (IH/DE), PaVeBaPartialGP (both confidence types) and Auer to termination on generated datasets with ties and gaps eps(1+-eta): the stub posterior "
+    "places the truth on region corners/boundaries with anisotropic shrinking covariances, per-round offsets come from a generated table (the history shrinks as data); a closed-form "
+    "monitor re-verifies the premise each round; the conclusion (every excluded design weakly dominated by a member of P; every member's gap <= eps with NNLS alpha) is decided on the true means.",
+    "Premise-failing or step-capped runs are excluded and counted; known finding F8 (rectangular PaVeBa types, rho>1) listed and excluded by signature.",
+    "DESIGN.md section 2 and section 3 C01")
+add("C05", "stateful property-based testing of whole VOGP / eps-PAL runs under adversarial stub and real GP posteriors; independent oracles on the true values",
+    "Runs to termination with batch 1..3 on datasets with engineered eps-isolated designs and near-duplicates; premise (truth inside every active design's displayed rectangle) re-verified "
+    "each round; conclusion on the truth: every design unmatched up to eps*u* (eps-PAL: eps per objective; u* from a least-distance programme) is in P and no member of P is dominated by "
+    "another member by more than the slack.",
+    "Premise-failing or step-capped runs excluded and counted; band 1e-9*scale.", "DESIGN.md section 2 and section 3 C05")
+
 PENDING = {}
 
 
